@@ -64,7 +64,10 @@ def rule_superposition(rep, repo):
             else:
                 for c in ast.walk(st):
                     if isinstance(c, ast.Call) and norm(c.func) in ("coulomb_gaussian_s", "coulomb_gaussian_p"):
-                        if isinstance(st, ast.AugAssign) and isinstance(st.op, ast.Add):
+                        plain = isinstance(st, ast.Assign) and len(st.targets) == 1 and isinstance(st.targets[0], ast.Name) and \
+                            isinstance(st.value, ast.BinOp) and isinstance(st.value.op, ast.Add) and \
+                            any(isinstance(x, ast.Name) and x.id == st.targets[0].id for x in ast.walk(st.value))
+                        if (isinstance(st, ast.AugAssign) and isinstance(st.op, ast.Add)) or plain:   # V += t  or  V = V + t
                             found[norm(c.func)[-1]].append((st, list(ctx)))
                     # the accumulation delegated to a helper that receives the family's potential function
                     if isinstance(c, ast.Call) and isinstance(c.func, ast.Name) and c.func.id in helpers:
@@ -234,6 +237,8 @@ def run(tier="quick", root="/repo", evidence_dir=None, quiet=False):
                           f"entry {sym!r} has non-numeric / non-finite coefficient(s)", where)
     rep.floor("shipped parameter sets", len(table), 5)
     rep.attempt(rule_superposition, rep, repo)
+    from gridlint import superposition
+    rep.attempt(superposition.rule_superposition_evaluated, rep, repo)
     # analytic clause: the s/p routines return the potential of the density they document (E8 + erf)
     from gridlint import identities
     rep.attempt(identities.rule_coulomb, rep, repo)
